@@ -25,6 +25,7 @@ def errName : Err → String
   | .eof => "eof" | .tag => "tag" | .tooLong => "tooLong" | .decode => "decode" | .version => "version"
   | .alg => "alg" | .gate => "gate" | .bitString => "bitString" | .negative => "negative"
   | .stalled => "stalled" | .range => "range"
+  | .lenForm => "lenForm" | .algMismatch => "algMismatch" | .outerLen => "outerLen"
 
 def hashName : HashAlg → String
   | .sha1 => "sha1" | .sha224 => "sha224" | .sha256 => "sha256" | .sha384 => "sha384" | .sha512 => "sha512"
